@@ -8,9 +8,9 @@ namespace Nervus.Props.C01
 open Nervus Nervus.Crash
 
 /-- **C01, full strength** (not proved — kept visible): as `acked_survive` below but without the
-    torn-tail precondition of `HistOK` (and, beyond what `Round` can express, for incarnations that
-    also compact, checkpoint and close).  False today: see `counterexample_torn_tail_append` and
-    `C02.counterexample_live_tree`. -/
+    compaction conditions `CondHist`.  False today: `C02.counterexample_live_tree` (a torn in-place
+    write of a live leaf loses a property of an acknowledged, already compacted transaction); not
+    proved for compactions that split a leaf. -/
 def C01_full : Prop :=
   ∀ (rounds : List Round), FreshHist [] rounds →
     ∃ m fs', recover cfgOfSource (afterRounds cfgOfSource (created cfgOfSource) rounds) = .ok (m, fs') ∧
@@ -18,17 +18,19 @@ def C01_full : Prop :=
         (∀ x ∈ tx.nodes, x ∈ (content m fs'.pv).nodes) ∧ (∀ e ∈ tx.edges, e ∈ (content m fs'.pv).edges) ∧
         (∀ q ∈ tx.props, q ∈ (content m fs'.pv).props)
 
-/-- **C01 (`acked_survive`)**: for every list of incarnations as in `C02.crash_prefix` (death at
-    any I/O step of an open or a commit, or between operations, process death or power loss with
-    any subset of unsynced operations, iterated), every commit that RETURNED in any incarnation is
-    completely there — all its nodes, edges and properties — when the database is opened after the
-    last crash. -/
-theorem acked_survive (rounds : List Round) (hok : HistOK cfgOfSource (created cfgOfSource) [] rounds) :
+/-- **C01 (`acked_survive`)**: for every list of incarnations as in `C02.crash_prefix` (open,
+    commits and compactions; death at any I/O step of an open, a commit, a compaction or the
+    close, or between operations; process death or power loss with any subset of unsynced
+    operations; iterated; under the compaction conditions `CondHist`), every commit that RETURNED
+    in any incarnation is completely there — all its nodes, edges and properties — when the
+    database is opened after the last crash. -/
+theorem acked_survive (rounds : List Round) (hok : FreshHist [] rounds)
+    (hc : CondHist cfgOfSource (created cfgOfSource) rounds) :
     ∃ m fs', recover cfgOfSource (afterRounds cfgOfSource (created cfgOfSource) rounds) = .ok (m, fs') ∧
       ∀ r ∈ rounds, ∀ tx ∈ r.obs.acked,
         (∀ x ∈ tx.nodes, x ∈ (content m fs'.pv).nodes) ∧ (∀ e ∈ tx.edges, e ∈ (content m fs'.pv).edges) ∧
         (∀ q ∈ tx.props, q ∈ (content m fs'.pv).props) := by
-  obtain ⟨T, m, fs', hadm, hrec, hsame⟩ := C02.crash_prefix rounds hok
+  obtain ⟨T, m, fs', hadm, hrec, hsame⟩ := C02.crash_prefix rounds hok hc
   refine ⟨m, fs', hrec, ?_⟩
   intro r hr tx htx
   have hin : tx ∈ T := admissible_acked hadm r.obs (List.mem_map.mpr ⟨r, hr, rfl⟩) tx htx
@@ -49,19 +51,23 @@ theorem commit_durable_after_sync {T : List Tx} {fs : FS} {m : Mem} {cs : List C
       ((fs.steps ((ioSteps (commitA cfgOfSource m fs.pv fs.wf tx)).take n)).crashW mode) :=
   (C02.commit_every_step h ht tx hf).2 n mode hn
 
-/-! non-vacuity: the history of `C02.ex_rounds` acknowledges `ex_tx1` and `ex_tx3` -/
-example : (C02.ex_rounds.flatMap (fun r => r.obs.acked)) = [C02.ex_tx1, C02.ex_tx3] := by decide
+/-! non-vacuity: the history of `C02.ex_rounds` acknowledges `ex_tx1`, `ex_tx3` and `ex_tx4` -/
+example : (C02.ex_rounds.flatMap (fun r => r.obs.acked)) = [C02.ex_tx1, C02.ex_tx3, C02.ex_tx4] := by decide
 
-/-- current tree, known finding C01-torn-tail-append (C17's repair not in this tree:
-    `cfgOfSource.tailTolerant = false`): process death in the middle of a record of the first
-    commit leaves a torn log tail; the second incarnation commits `tx2` behind it and is
-    acknowledged; after the next open the nodes of `tx2` are there (node table) but its edge and its
-    property are gone (the log behind the torn frame is never read). -/
+/-- the tree before C17's repair (`tailTolerant := false`; fixed by 5f14685): process death in
+    the middle of a record of the first commit leaves a torn log tail; the second incarnation
+    commits `tx2` behind it and is acknowledged; after the next open the nodes of `tx2` are there
+    (node table) but its edge and its property are gone (the log behind the torn frame is never
+    read).  On the current tree the same history is covered by `acked_survive`. -/
 theorem counterexample_torn_tail_append :
-    cfgOfSource.tailTolerant = false ∧
-    (match recover cfgOfSource (afterRounds cfgOfSource (created cfgOfSource)
-        [⟨[], .inCommit C02.ex_tx1 4, .proc⟩, ⟨[C02.ex_tx2], .idle, .proc⟩]) with
+    (match recover { cfgOfSource with tailTolerant := false }
+        (afterRounds { cfgOfSource with tailTolerant := false } (created cfgOfSource)
+          [⟨[], .inCommit C02.ex_tx1 4, .proc⟩, ⟨[.commit C02.ex_tx2], .idle, .proc⟩]) with
       | .ok (m, fs) => some (content m fs.pv)
-      | .error _ => none) = some ⟨[2001, 2002], [], []⟩ := by decide
+      | .error _ => none) = some ⟨[2001, 2002], [], []⟩ ∧
+    (match recover cfgOfSource (afterRounds cfgOfSource (created cfgOfSource)
+          [⟨[], .inCommit C02.ex_tx1 4, .proc⟩, ⟨[.commit C02.ex_tx2], .idle, .proc⟩]) with
+      | .ok (m, fs) => some (content m fs.pv)
+      | .error _ => none) = some ⟨[2001, 2002], [2000], [20000]⟩ := by decide
 
 end Nervus.Props.C01
